@@ -644,8 +644,12 @@ func (g *Gen) opMutate(t *Table) []Op {
 			c := t.Columns[cn]
 			if c.Type.IsScalar() && c.Type.Key.Type == "integer" && len(c.Type.Key.Enum) == 0 && !c.Immutable && g.chance(500) {
 				m := []string{"+=", "-="}[g.pick(2)]
+				step := int64(1) << 62
+				if g.chance(500) {
+					step = -step
+				}
 				for k := 0; k < 3; k++ {
-					muts = append(muts, []any{cn, m, int64(1) << 62})
+					muts = append(muts, []any{cn, m, step})
 				}
 				break
 			}
